@@ -64,8 +64,7 @@ def main():
     prop = a.prop.upper()
     name = a.name or f'{prop}-{os.path.basename(os.path.normpath(a.src))}'
     checks = (a.checks or prop).split(',')
-    wt = f'/tmp/wt/seed-{name}'
-    sh(f'git -C /repo worktree remove --force {wt}')
+    wt = f'/tmp/wt/seed-{name}-{os.getpid()}'
     os.makedirs('/tmp/wt', exist_ok=True)
     r = sh(f'git -C /repo worktree add -q {wt} HEAD')
     meta = dict(property=prop, name=name, checks={}, repo_head=sh('git -C /repo rev-parse --short HEAD').stdout.strip())
